@@ -209,6 +209,23 @@ CLAIMS["C04"] = {
     "ref": "DESIGN.md section 7 C04",
 }
 
+CLAIMS["C09"] = {
+    "text": "Twenty-four Coq theorems (Props/C09.v) about the model of the decoder: with_sub n m succeeds only if the window had n "
+            "octets, the child ran on exactly that n-octet slice and consumed exactly n (leftover => TooManyBytes, need of more => "
+            "NotEnoughBytes inside the child), and the parent continues n octets later; a record advances the cursor by name "
+            "extent + 10 + RDLENGTH and its body consumes exactly RDLENGTH; each EDNS option, APL address and SvcParam consumes "
+            "exactly its own length field; an accepted message has exactly the announced number of entries per section (the four "
+            "16-bit counts) and ends at the last octet; RemainingBytes is returned exactly when the sections parse and octets "
+            "remain; window confinement: readers without a name field do not depend on the message outside their window, the "
+            "octet counter is write-only, and a record with a literal owner and a name-free type decodes to the same value between "
+            "any neighbouring octets (no absorption). Tie: every count / RDLENGTH / option, item, parameter and string length of "
+            "valid messages changed by -2..+2, +-255, +-256, 0, max; truncations; suffixes; framing errors compared with payload; "
+            "accepted inputs re-framed by the reference decoder.",
+    "note": "The general statement 'a reader with name fields depends on the message only through pointer targets' is proved for literal names only; pointer-bearing records are covered by C03 (equality with the reference decoder, whose windows are exact by construction). " + NOTE_COMMON,
+    "technique": "Coq proof (exact-window inversion lemmas, section/count theorems, window-confinement by parametricity in the message) + near-miss differential streams + reference framing oracle",
+    "ref": "DESIGN.md section 7 C09",
+}
+
 REASON_PENDING = "check not built yet (work in progress; see DESIGN.md section 10)"
 
 
